@@ -9,4 +9,26 @@ SOpW == <<"CreateBucket", "DeleteBucket", "PutVersioning", "PutVersioning", "Put
           "PutTagging", "PutTagging", "Transition">>
 SOpWSel == SelectSeq(SOpW, LAMBDA o : o \in Ops)
 SGenNext == GStep(RandCall(RW(SOpWSel), S))
+
+\* ---------------------------------------------------------------- copy-directive cover (BFS)
+\* The situations of a successful CopyObject that the S3 translation must keep apart:
+\*   tagging directive  x  source tagged / untagged    x  replacement tag set empty / non-empty
+\*   metadata directive x  source with / without metadata x  replacement metadata empty / non-empty
+\* Breadth-first search over a small alphabet prints the first (shortest) program into each of them;
+\* the pipeline always adds a covering selection to the random programs.
+CopySit(St, c, r) ==
+  IF c.op = "CopyObject" /\ r.err = "" /\ ~(c.sb = c.b /\ c.sk = c.k)
+  THEN LET vs == St.objs[c.sb][c.sk]
+           sv == IF c.svid = -1 THEN Current(vs) ELSE vs[Idx(vs, c.svid)]
+       IN {<<"tags", c.tdir, sv.tags # None, c.tags = None>>, <<"meta", c.mdir, sv.meta.user # None, c.meta = None>>}
+  ELSE {}
+CStep(c) == Step(c) /\ sits' = <<CopySit(S, c, Apply(S, c).r)>>
+CoverInit == Init /\ sits = <<>> /\ TLCSet(9, {})
+CoverNext == S.clock < MaxClock /\ \E c \in Calls(S) : CStep(c)
+CopyCover ==
+  IF sits = <<>> THEN TRUE
+  ELSE LET new == {ToString(x) : x \in sits[1]} \ TLCGet(9) IN
+       IF new = {} THEN TRUE
+       ELSE TLCSet(9, TLCGet(9) \cup new) /\ PrintT(ToJson([calls |-> hist, keys |-> new]))
+CoverView == <<S, sits>>
 =============================================================================
